@@ -7,8 +7,8 @@
      [implies], [is_min_sigs], [evalC], [paths]/[has_mixed_path].
    Where the faithful model violates the full-strength statement there is a [_refuted] theorem with
    the witness (a finding about the code, listed in known_findings.txt) next to the strongest
-   variant that holds.  Three earlier findings (entails on un-normalized arguments, And lifted
-   2-of-n, syntactic mixed-time-lock check) are repaired in /repo; their theorems are now the
+   variant that holds.  Four earlier findings (entails on un-normalized arguments, And lifted
+   2-of-n, syntactic mixed-time-lock check, lift re-checking unsatisfiable branches) are repaired in /repo; their theorems are now the
    full statements. *)
 From Coq Require Import List NArith Bool Arith.
 Import ListNotations.
@@ -120,26 +120,13 @@ Theorem C18_concrete_lift : forall p s, lift p = LOk s ->
 Proof. exact (fun p s E => conj (lift_normal p s E) (fun rho => concrete_lift rho p s E)). Qed.
 Print Assumptions C18_concrete_lift.
 
-(* when lift refuses: exactly when check_timelocks rejects some sub-policy *)
-Theorem C18_lift_refusal : forall p, lift p = LErrTimelock <-> any_sub_rejected p = true.
-Proof. exact lift_refusal. Qed.
-Print Assumptions C18_lift_refusal.
-
-(* full statement:  forall p, lift p = LErrTimelock <-> check_timelocks p = false
-   — false on the code as it is now: lift re-runs the check inside unsatisfiable branches that
-   check_timelocks ignores since b588aa3a, and so refuses a satisfiable policy without any
-   mixing path *)
-Theorem C18_lift_refusal_exact_refuted :
-  exists p, cwf p = true /\ check_timelocks p = true /\ lift p = LErrTimelock /\
-            paths p <> [] /\ ~ has_mixed_path p.
-Proof. exact lift_refusal_exact_refuted. Qed.
-Print Assumptions C18_lift_refusal_exact_refuted.
-
-(* _partial: holds outside the class [lift_refusal_defect] (missing: the class itself) *)
-Theorem C18_lift_refusal_exact_partial : forall p, lift_refusal_defect p = false ->
-  (lift p = LErrTimelock <-> check_timelocks p = false).
-Proof. exact lift_err_iff. Qed.
-Print Assumptions C18_lift_refusal_exact_partial.
+(* lift refuses exactly the policies check_timelocks refuses and lifts every other one
+   [repaired in /repo 243891a5: the check is made once, for the whole policy] *)
+Theorem C18_lift_refusal_exact : forall p,
+  (lift p = LErrTimelock <-> check_timelocks p = false) /\
+  (check_timelocks p = true -> lift p = LOk (lift_unchecked p)).
+Proof. exact lift_refusal_exact. Qed.
+Print Assumptions C18_lift_refusal_exact.
 
 (* ---------------------------------------------------------------- mixed time locks *)
 (* the mixed-time-lock check fires exactly when some satisfying path needs both a height-based
@@ -186,7 +173,7 @@ Example C18_nonvacuous_concrete :
   check_timelocks (CAnd [CAfter 1; CAnd [CAfter 500000001; CUnsat]]) = true /\
   lift (CAnd [CKey 0; CKey 1; CKey 2]) = LOk (SThresh 3 [SKey 0; SKey 1; SKey 2]) /\
   lift (CAnd [CKey 0]) = LOk (SKey 0) /\ lift (CAnd []) = LOk STriv /\ lift (COr []) = LOk SUnsat /\
-  lift_refusal_defect (CAnd [CKey 0; COr [CKey 1; COlder 5]]) = false /\
+  lift (COr [CKey 0; CAnd [CAnd [CAfter 1; CAfter 500000001]; CUnsat]]) = LOk (SKey 0) /\
   NoDup (keys_of (SThresh 2 [SKey 0; SKey 1; SKey 2])) /\ min_keys (SThresh 2 [SKey 0; SKey 1; SKey 2]) = Some 2.
 Proof.
   cbv zeta. repeat split; try reflexivity.
